@@ -92,6 +92,11 @@ def run(tier):
         runs, _ = vlib.validate_runs(rep, "LinTrace", "LinTrace", hc, wd, f"connection{i}", describe="not linearizable: {what}", strip=())
         account(runs)
         os.remove(hc)
+    # connections that come and go on one shared buffer pool; a client that dies inside a frame leaves nothing behind
+    tr = os.path.join(wd, "pool.ndjson")
+    vlib.vh(["conn", "pool", "--out", tr])
+    vlib.validate_runs(rep, "ConnTrace", "ConnTrace", tr, wd, "shared_pool", describe="connection case rejected: {what}", strip=("s", "cmds", "replies"))
+    os.remove(tr)
     rep.notes["history_statistics"] = stats
     rep.cov["distinct_nontrivial"] = stats["histories"]
     rep.cov["rule"] = ("a case is one concurrent history (scripted schedule or free-running run) on a fresh ShardedActorState; every history "
